@@ -45,6 +45,7 @@ func runC09(c *core.Ctx) {
 	c09R4(c)
 	c09R5(c)
 	c09R6(c)
+	c09R7(c, "C09.R7")
 }
 
 func c09R1(c *core.Ctx) {
@@ -731,4 +732,136 @@ func onlyLocalClosures(v ssa.Value, d int) bool {
 		return okAll && n > 0
 	}
 	return false
+}
+
+// c09R7: the channel-option scanner terminates on every input. parseOptions advances its index
+// only when a key ('=') or a value ('&' / end of text) was found; an iteration that finds
+// neither must hit the `len(key) == 0 || len(val) == 0 ⇒ return false` test, which works only
+// if key and val are empty at the start of every iteration. In SSA terms: every []byte loop
+// variable that reaches a `len(x) == 0` test of the outer loop re-enters the loop (back edge of
+// the loop header phi) as an empty slice (nil, or x[0:0]) — or is declared inside the loop and
+// has no header phi at all. A value carried around the back edge makes the scanner spin forever
+// (appending an option per turn) on `?a=1&b`, before any authorisation.
+func c09R7(c *core.Ctx, rule string) {
+	c.Rule(rule, "security.Channel.parseOptions: the byte-slice loop variables tested by `len(x) == 0` are empty whenever the outer loop is re-entered (termination of the option scanner on hostile topics)", 1)
+	f := fn(c, rule, "internal/security", "Channel", "parseOptions")
+	if f == nil {
+		return
+	}
+	// slices whose length is tested against 0
+	tested := map[ssa.Value]bool{}
+	eng.Instrs(f, func(in ssa.Instruction) {
+		bo, ok := in.(*ssa.BinOp)
+		if !ok || (bo.Op != token.EQL && bo.Op != token.NEQ && bo.Op != token.LSS && bo.Op != token.GTR) {
+			return
+		}
+		for _, pr := range [][2]ssa.Value{{bo.X, bo.Y}, {bo.Y, bo.X}} {
+			if k, isC := eng.ConstInt(pr[1]); isC && (k == 0 || k == 1) {
+				if b, isLen := eng.LenOf(pr[0]); isLen {
+					if _, isSlice := b.Type().Underlying().(*types.Slice); isSlice {
+						tested[b] = true
+					}
+				}
+			}
+		}
+	})
+	isEmpty := func(v ssa.Value) bool {
+		if eng.IsNilConst(v) {
+			return true
+		}
+		if sl, ok := v.(*ssa.Slice); ok && sl.Low != nil && sl.High != nil {
+			lo, ok1 := eng.ConstInt(sl.Low)
+			hi, ok2 := eng.ConstInt(sl.High)
+			return ok1 && ok2 && lo == 0 && hi == 0
+		}
+		return false
+	}
+	// header phis feeding a tested value
+	feeds := map[*ssa.Phi]bool{}
+	var walk func(v ssa.Value, d int)
+	walk = func(v ssa.Value, d int) {
+		phi, ok := v.(*ssa.Phi)
+		if !ok || feeds[phi] || d > 8 {
+			return
+		}
+		feeds[phi] = true
+		for _, e := range phi.Edges {
+			walk(e, d+1)
+		}
+	}
+	for v := range tested {
+		walk(v, 0)
+	}
+	n, bad := 0, ""
+	for phi := range feeds {
+		b := phi.Block()
+		for k, pred := range b.Preds {
+			if !b.Dominates(pred) {
+				continue // not a back edge
+			}
+			n++
+			e := phi.Edges[k]
+			ok := isEmpty(e)
+			if p2, isPhi := e.(*ssa.Phi); isPhi && !ok {
+				ok = true
+				for _, e2 := range p2.Edges {
+					if !isEmpty(e2) {
+						ok = false
+					}
+				}
+			}
+			if !ok {
+				bad = fmt.Sprintf("%s (%s) re-enters the loop at block %d as %s", phi.Comment, phi.Name(), b.Index, eng.Describe(e))
+			}
+		}
+	}
+	// variables that live in memory (their address is taken, e.g. binary.ToString(&key)): every
+	// store of a non-empty value is followed, before the loop is re-entered, by a store of an
+	// empty one
+	for v := range tested {
+		u, ok := v.(*ssa.UnOp)
+		if !ok || u.Op != token.MUL {
+			continue
+		}
+		al, ok := u.X.(*ssa.Alloc)
+		if !ok {
+			continue
+		}
+		// outer loop header: the dominating block with a back edge that is closest to the entry
+		var header *ssa.BasicBlock
+		for _, b := range f.Blocks {
+			if !b.Dominates(u.Block()) {
+				continue
+			}
+			for _, p := range b.Preds {
+				if b.Dominates(p) && (header == nil || b.Index < header.Index) {
+					header = b
+				}
+			}
+		}
+		if header == nil {
+			continue
+		}
+		emptyStore := func(i ssa.Instruction) bool {
+			st, ok := i.(*ssa.Store)
+			return ok && st.Addr == ssa.Value(al) && isEmpty(st.Val)
+		}
+		for _, r := range *al.Referrers() {
+			st, ok := r.(*ssa.Store)
+			if !ok || st.Addr != ssa.Value(al) || isEmpty(st.Val) {
+				continue
+			}
+			n++
+			again, w := eng.Reach(f, st, emptyStore, func(i ssa.Instruction) bool { return i == header.Instrs[0] })
+			if again {
+				bad = fmt.Sprintf("%s assigned at %s is still set when the loop is re-entered: %v", al.Comment, c.P.Pos(st.Pos()), w)
+			}
+		}
+	}
+	c.Count("loop_carried_slices_checked", n)
+	if len(tested) == 0 {
+		c.Fail(rule, fnName(f)+":emptiness test", f.Pos(), "parseOptions no longer tests that a key and a value were found before appending an option")
+		return
+	}
+	c.Check(bad == "", rule, fnName(f)+":key and value start every iteration empty", f.Pos(), "the scanned key/value never survive an iteration, so an iteration that finds nothing returns false", "a scanned key or value survives into the next iteration of the option loop ("+bad+"): an input whose last option has no '=' (\"?a=1&b\") passes the emptiness test with the previous option's key and value, the index never advances and the connection goroutine spins forever, allocating an option per turn")
 }
